@@ -68,6 +68,30 @@ Proof.
 Qed.
 
 (* ------------------------------------------------------------------ the name-level spec *)
+(* ---- the keys of the added residues continue after the highest key in use ---- *)
+Lemma fold_max_bounded l k : Forall (fun x => x <= k) l -> fold_left Z.max l k = k.
+Proof. induction 1 as [|x r Hx _ IH]; cbn [fold_left]; [reflexivity|]. rewrite Z.max_l by lia. exact IH. Qed.
+
+Lemma kmax_bounded g k : Forall (fun n => n_key n <= k) (g_nodes g) -> kmax g k = k.
+Proof.
+  intros H. unfold kmax. apply fold_max_bounded. apply Forall_forall. intros x Hx. apply in_map_iff in Hx.
+  destruct Hx as (n & <- & Hn). rewrite Forall_forall in H. exact (H n Hn).
+Qed.
+
+Lemma fold_max_ge l : forall k, k <= fold_left Z.max l k /\ Forall (fun x => x <= fold_left Z.max l k) l.
+Proof.
+  induction l as [|x r IH]; intros k; cbn [fold_left]; [split; [lia|constructor]|].
+  destruct (IH (Z.max k x)) as [H1 H2]. split; [lia|]. constructor; [lia|exact H2].
+Qed.
+
+(* whatever the keys of the strand: the first key handed out (kmax + 1) is above every key in use, nothing is overwritten *)
+Lemma kmax_fresh g k : Forall (fun n => n_key n < kmax g k + 1) (g_nodes g) /\ k < kmax g k + 1.
+Proof.
+  unfold kmax. destruct (fold_max_ge (map n_key (g_nodes g)) k) as [H1 H2]. split; [|lia].
+  rewrite Forall_forall in H2. apply Forall_forall. intros n Hn.
+  specialize (H2 (n_key n) (in_map n_key _ _ Hn)). cbn beta in H2. lia.
+Qed.
+
 Section SpecLemmas.
   Variable t : list (string * string).
 
@@ -258,7 +282,7 @@ Section Alg.
     (exists extra, g_nodes g' = g_nodes g ++ extra /\ Forall (fun n => n_key ln < n_key n) extra) /\
     (forall w, w <= n_key ln -> adj_of (g_adj g') w = adj_of (g_adj g) w).
   Proof.
-    intros Hl Hb H. unfold complement in H. rewrite Hl in H.
+    intros Hl Hb H. unfold complement in H. rewrite Hl in H. cbv zeta in H. rewrite (kmax_bounded g (n_key ln) Hb) in H.
     destruct (tlookup t (n_name ln)) as [cname|]; [|discriminate].
     set (k := n_key ln) in *.
     destruct (loop t _ _ k k) as [s|e] eqn:El; [|discriminate]. injection H as <-.
